@@ -140,14 +140,36 @@ func modsText(m map[string]string) string {
 	return b.String()
 }
 
-var hostile = []string{"", ";", "{", "}", "(", ")", "\"", "'", "/*", "fn", "let", "=", "é", "\n", "$", "#", "@", "1f", "..", "match", "as"}
+var hostile = []string{"", ";", "{", "}", "(", ")", "\"", "'", "/*", "fn", "let", "=", "é", "\n", "$", "#", "@", "1f", "..", "match", "as",
+	"\r", "\r\n", "\t", " \r ", "// 日本語 😀\n", "\"ｗｉｄｅ 한글\"", "\u2028", "\v", "\f", "\u00a0"}
 
 func damage(rt *rapid.T, text string) (string, string) {
 	rs := []rune(text)
 	if len(rs) == 0 {
 		return text, "empty"
 	}
-	switch rapid.IntRange(0, 5).Draw(rt, "damage") {
+	switch rapid.IntRange(0, 6).Draw(rt, "damage") {
+	case 6:
+		// layout characters: the positions of everything behind them must still be those of the text. A line break
+		// is "\n" (that is what the renderers split at); "\r" alone, tabs and wide characters are ordinary characters.
+		switch rapid.IntRange(0, 3).Draw(rt, "layout") {
+		case 0:
+			return strings.ReplaceAll(text, "\n", "\r\n"), "layout-crlf"
+		case 1:
+			// lone carriage returns behind some of the spaces
+			out := []rune{}
+			for _, r := range rs {
+				out = append(out, r)
+				if r == ' ' && rapid.IntRange(0, 9).Draw(rt, "cr") == 0 {
+					out = append(out, '\r')
+				}
+			}
+			return string(out), "layout-lone-cr"
+		case 2:
+			return "let wide_s = \"日本語 ｗｉｄｅ 😀 한글\"; // 漢字 😀😀\n/* 日本 */ " + text, "layout-wide-chars"
+		default:
+			return strings.ReplaceAll(text, "    ", "\t"), "layout-tabs"
+		}
 	case 0:
 		k := rapid.IntRange(0, len(rs)).Draw(rt, "cut")
 		return string(rs[:k]), "truncate"
